@@ -157,6 +157,12 @@ def load_one(lit: LineIterator) -> dict:
         result["atgradient"] = atgradient.reshape(-1, 3)
     athessian = fchk.get("Cartesian Force Constants")
     if athessian is not None:
+        ndof = 3 * len(fchk["Atomic numbers"])
+        if len(athessian) != (ndof * (ndof + 1)) // 2:
+            raise LoadError(
+                "The number of Cartesian force constants is inconsistent with the number of atoms.",
+                lit,
+            )
         result["athessian"] = _triangle_to_dense(athessian)
     atfrozen = fchk.get("MicOpt")
     if atfrozen is not None:
